@@ -37,6 +37,9 @@ CLAIMED = {
     "C03": ("generated close histories (explicit / end of exec / reference drop, exec and sub channels) on an in-process gateway pair under the deterministic scheduler; transcript + state oracle + wire parse; focused exhaustive single preemption inside the close/receive functions",
             "Generated conversations in which one side sends items and then closes a channel in one of the three ways while the peer has several blocked receivers and waitclose callers; executed with both ends in-process under generated schedules and line-level preemption. The oracle requires exact, ordered delivery of everything sent before the close, repeated EOFError for every receiver, waitclose returning, the documented post-close state (send OSError, isclosed, immediate waitclose, harmless second close with no second frame on the wire) on the closing side at once and on the peer once it observed the close.",
             "Sampling of schedules; the focused single-preemption enumeration is complete only in the thorough tier (strided in quick). 'sendonly' after dropping a channel with a callback is treated as documented.", "3/C03"),
+    "C07": ("generated failure positions in conversation programs (raising exec bodies and raising callbacks on either side, exec and sub channels, dropped channel objects, healthy siblings) under the deterministic scheduler; transcript oracle; focused exhaustive single preemption in the error-propagation functions",
+            "Generated programs with one or two failing conversations and up to two healthy siblings run with both gateway ends in-process under generated schedules; the oracle requires all earlier items, exactly one RemoteError with type/message/traceback text, EOFError afterwards, a proper error on the failing side's own channel, untouched sibling transcripts and a gateway that still executes a fresh remote_exec.",
+            "Sampling of schedules; focused single-preemption enumeration complete for scenarios up to 1200 focus lines. For a dropped channel with a callback the documented 'sendonly' state limits what the peer can observe.", "3/C07"),
 }
 
 NOT_APPLICABLE = {}
